@@ -21,7 +21,7 @@ RULE = ('mode A: small concurrent programs (2-4 clients x 2-5 calls over 1-3 key
         'preemption inside an operation (mode A) plus free runs with overlapping operation pairs (mode B)')
 DISTINCT = ('schedules_with_preemption_in_op', 'free_runs_with_overlap')
 REQUIRED = ('histories_checked', 'schedules_shared_object', 'schedules_separate_objects', 'lock_waits_observed',
-            'file_backed_values', 'free_runs_threads', 'free_runs_processes', 'lru_stat_schedules')
+            'file_backed_values', 'free_runs_threads', 'free_runs_processes', 'lru_stat_schedules', 'expired_present_keys')
 ASSUMPTIONS = ('threads are interleaved at SQL-statement and value-file-operation granularity (where diskcache\'s '
                'critical sections begin and end); interleavings inside SQLite are reached only by free-running runs',
                'cross-process ordering uses CLOCK_MONOTONIC shared by processes of one machine')
@@ -209,12 +209,24 @@ def mode_a(dc, sc, res, rng, tier, label, variant):
     keys, init, prog = gen_program(rng, nclients)
     shared = rng.random() < 0.5
     settings = {'disk_min_file_size': T, 'timeout': 0}
+    expired_keys = []
+    if variant == 'expired':
+        # some keys are present but already expired (never culled: cull_limit 0): to every operation they are absent,
+        # and add / incr over them rewrite the row in place - atomically
+        settings['cull_limit'] = 0
+        expired_keys = [k for k in keys if rng.random() < 0.7]
+        for k in expired_keys:
+            init.pop(k, None)
+        prog = [[o for o in ops if o[0] not in ('len', 'iter')] or [('get', (keys[0], 'MISS'), {})] for ops in prog]
     if variant == 'lru':
         settings['eviction_policy'] = rng.choice(['least-recently-used', 'least-frequently-used'])
         settings['statistics'] = rng.random() < 0.5
     d = sc.new()
     clock = probe.set_clock(probe.VClock())
     setup = dc.Cache(d, **settings)
+    for k in expired_keys:
+        setup.set(k, stamp(8, 0, rng.random() < 0.5) if k != 'n' else 3, expire=-1)
+        res.count('expired_present_keys')
     for k, v in init.items():
         setup.set(k, v)
         if isinstance(v, str) and len(v) >= T:
@@ -263,8 +275,9 @@ def mode_a(dc, sc, res, rng, tier, label, variant):
             ops.append({'client': 99, 'op': 'get', 'args': (k, 'MISS'), 'kw': {}, 'call': t, 'ret': t + 1,
                         'kind': 'ok', 'result': v})
             t += 2
-        ops.append({'client': 99, 'op': 'len', 'args': (), 'kw': {}, 'call': t, 'ret': t + 1, 'kind': 'ok',
-                    'result': len(fresh)})
+        if variant != 'expired':
+            ops.append({'client': 99, 'op': 'len', 'args': (), 'kw': {}, 'call': t, 'ret': t + 1, 'kind': 'ok',
+                        'result': len(fresh)})
         fresh.close()
         ok = judge_history(res, ops, init, label, keys, extra)
         if ok and len(res.samples) < 2 and sch.preemptions_in_op:
@@ -450,7 +463,7 @@ def run_shard(tier, seed, shard, nshards, res):
     with common.Scratch() as sc:
         for i in range(n_a):
             rng = common.rng_for(seed, 'c05a', shard, i)
-            variant = 'lru' if i % 5 == 4 else 'plain'
+            variant = 'lru' if i % 5 == 4 else 'expired' if i % 5 == 2 else 'plain'
             mode_a(dc, sc, res, rng, tier, 'c05 A seed=%d shard=%d i=%d' % (seed, shard, i), variant)
             if res.counters.get('violations_raw', 0) > 5:
                 return
